@@ -13,6 +13,7 @@
  R4 OMS walk    : every element visited by the OMS walk of build_oms_list is recorded in the OMS and gets oms and
                   oms_id before the walk advances; reversed_oms pairs on swapped end uids; the map is built with the
                   same f_min / f_max / grid as the bitmap.
+ Rm memo          : every memoisation construct in the functions behind this property is keyed by everything it reads.
 """
 import ast
 
@@ -377,4 +378,9 @@ def r5_common_range(ctx):
               'the usable bands of an OMS are not computed from the elements of that OMS')
 
 
-RULES = [('R5.common-range', r5_common_range), ('R1.layout', r1_layout), ('R2.indices', r2_indices), ('R3.grid', r3_grid), ('R4.walk', r4_walk)]
+
+from ..memo import rule_for as _memo_rule
+
+RULES_MEMO = ('Rm.memo', _memo_rule('C15', 'the spectrum map of another configuration would be reused'))
+
+RULES = [('R5.common-range', r5_common_range), ('R1.layout', r1_layout), ('R2.indices', r2_indices), ('R3.grid', r3_grid), ('R4.walk', r4_walk), RULES_MEMO]
